@@ -145,7 +145,28 @@ func c18Batch(r *rand.Rand, idx int) Case {
 	}
 	for step, n := 0, 2+r.Intn(5); step < n && len(fail) == 0; step++ {
 		pn := guard(func() {
-			switch k := r.Intn(9); {
+			switch k := r.Intn(11); {
+			case k >= 9: // one file, under the path exactly as the caller spells it (a document name is a name, not a cleaned path)
+				dir := filepath.Join(root, "single")
+				_ = os.MkdirAll(dir, 0o755)
+				f := c18GenFile(r, o, c18Names[r.Intn(3)])
+				_ = os.WriteFile(filepath.Join(dir, f.name), []byte(f.text), 0o644)
+				p := filepath.Join(dir, f.name)
+				switch r.Intn(4) {
+				case 0:
+					p = dir + "/./" + f.name
+				case 1:
+					p = dir + "//" + f.name
+				case 2:
+					p = filepath.Join(dir, "no-such-"+f.name)
+					f.doc = nil
+				}
+				opts, tags, polS := c18Opts(r)
+				err := ds.AddDocumentFromFile(p, common.DefaultFileDecoderProvider(p), opts...)
+				known = append(known, p)
+				descs = append(descs, fmt.Sprintf("AddDocumentFromFile(%s, tags=%v, %s) err=%v", strings.TrimPrefix(p, root), tags, polS, err))
+				coqs = append(coqs, "DAddFiles "+gFiles([]string{p}, []map[string]any{f.doc})+" "+gStrs(tags)+" "+polS)
+				obs = append(obs, "DObsOk "+gBool(err == nil))
 			case k <= 2: // a directory; one of two, so that paths are met again
 				dir := filepath.Join(root, fmt.Sprintf("dir%d", r.Intn(2)))
 				_ = os.MkdirAll(dir, 0o755)
